@@ -6,7 +6,7 @@
 //! returns early is a use-after-free for Miri / ASan.
 use std::sync::{
     atomic::{AtomicU64, Ordering},
-    Mutex,
+    Arc, Mutex,
 };
 
 use rand::{rngs::StdRng, Rng};
@@ -499,6 +499,135 @@ fn prog_json(p: &Program) -> Value {
     json!({"program": format!("{:?}", p)})
 }
 
+/// Deadline scenarios on manual clocks: "the scope's context is cancelled ... when the caller's context is cancelled or its
+/// deadline passes, and cancellation reaches every descendant context". A caller context with a 10 s deadline (inherited or
+/// tightened; on the root's clock or on an independent clock of its own via `ctx::test_with_clock`) runs a scope whose root
+/// task, background task and nested scope all wait for cancellation. One of the clocks is advanced past the deadline (or not
+/// far enough): the scope must return iff the deadline has passed on the caller's own clock or on an ancestor's.
+fn deadline_scenarios(rep: &mut Report, rng: &mut StdRng, replay_base: Value) {
+    let independent = rng.gen_bool(0.5); // the caller context has a clock of its own
+    let tighten = rng.gen_bool(0.5); // the caller tightens the inherited deadline to 5 s
+    let advance_own = rng.gen_bool(0.5); // which clock moves: the caller's own (B) or the ancestor's (A)
+    let secs: i64 = [3i64, 7, 11, 11][rng.gen_range(0..4)]; // short of every deadline / past the tightened one only / past both
+    let nested = rng.gen_range(0..3u32);
+    let rt = tokio::runtime::Builder::new_current_thread().enable_time().start_paused(true).build().unwrap();
+    let (clock_a, clock_b) = (ctx::ManualClock::new(), ctx::ManualClock::new());
+    let observed = Arc::new(AtomicU64::new(0));
+    let returned = Arc::new(AtomicU64::new(0));
+    let (obs, ret) = (&observed, &returned);
+    let (ca, cb) = (&clock_a, &clock_b);
+    let hung: (Option<(&'static str, String)>, bool) = rt.block_on(async move {
+        let root = ctx::test_root(ca);
+        let parent = root.with_timeout(time::Duration::seconds(10));
+        let mut caller = if independent { ctx::test_with_clock(&parent, cb) } else { parent.with_deadline(time::Deadline::Infinite) };
+        if tighten {
+            caller = caller.with_timeout(time::Duration::seconds(5));
+        }
+        let caller = &caller;
+        let scope_fut = async move {
+            let _: Result<(), ()> = scope::run!(caller, |ctx, s| async move {
+                s.spawn_bg(async move {
+                    ctx.canceled().await;
+                    obs.fetch_add(1, Ordering::SeqCst);
+                    Ok(())
+                });
+                s.spawn(async move {
+                    // nested scopes: cancellation reaches every descendant context
+                    match nested {
+                        0 => ctx.canceled().await,
+                        1 => {
+                            let _: Result<(), ()> = scope::run!(ctx, |ctx, s| async move {
+                                s.spawn(async move {
+                                    ctx.canceled().await;
+                                    Ok(())
+                                });
+                                Ok(())
+                            })
+                            .await;
+                        }
+                        _ => {
+                            let _: Result<(), ()> = scope::run!(ctx, |ctx, s| async move {
+                                s.spawn(async move {
+                                    let _: Result<(), ()> = scope::run!(ctx, |ctx, s| async move {
+                                        s.spawn_bg(async move {
+                                            ctx.canceled().await;
+                                            Ok(())
+                                        });
+                                        ctx.canceled().await;
+                                        Ok(())
+                                    })
+                                    .await;
+                                    Ok(())
+                                });
+                                Ok(())
+                            })
+                            .await;
+                        }
+                    }
+                    obs.fetch_add(1, Ordering::SeqCst);
+                    Ok(())
+                });
+                ctx.canceled().await;
+                obs.fetch_add(1, Ordering::SeqCst);
+                Ok(())
+            })
+            .await;
+            ret.fetch_add(1, Ordering::SeqCst);
+        };
+        let driver = async move {
+            for _ in 0..50 {
+                tokio::task::yield_now().await;
+            }
+            if independent && advance_own {
+                cb.advance(time::Duration::seconds(secs));
+            } else {
+                ca.advance(time::Duration::seconds(secs));
+            }
+            for _ in 0..300 {
+                tokio::task::yield_now().await;
+            }
+            let done = ret.load(Ordering::SeqCst) == 1;
+            // the inherited deadline passes after 10 s on the caller's own clock, or on the ancestor's (the cancellation cascades);
+            // the tightened one after 5 s on the caller's own clock only
+            let own_clock_advanced = !independent || advance_own;
+            let should = secs >= 10 || (tighten && secs >= 5 && own_clock_advanced);
+            let mut bad = None;
+            if should && !done {
+                bad = Some(("scope-not-cancelled-at-deadline", format!("the caller's deadline passed ({secs} s on {} clock; independent clock: {independent}, tightened: {tighten}, nesting {nested}) but the scope has not returned; {} of 3 waiters observed the cancellation", if independent && advance_own { "its own" } else { "the ancestor's" }, obs.load(Ordering::SeqCst))));
+            }
+            if !should && done {
+                bad = Some(("scope-cancelled-before-deadline", format!("no deadline has passed ({secs} s; independent clock: {independent}, tightened: {tighten}) but the scope returned")));
+            }
+            // release whatever still waits so that nothing is dropped unfinished
+            ca.advance(time::Duration::seconds(100));
+            cb.advance(time::Duration::seconds(100));
+            bad
+        };
+        // a scope future must never be dropped unfinished (process abort): on a virtual-time deadlock it is leaked
+        let mut both = Box::pin(async move { tokio::join!(scope_fut, driver).1 });
+        tokio::select! {
+            biased;
+            bad = &mut both => (bad, true),
+            _ = tokio::time::sleep(std::time::Duration::from_secs(3600)) => {
+                std::mem::forget(both);
+                (None, false)
+            }
+        }
+    });
+    rep.evaluations += 1;
+    rep.count("deadline_scenarios");
+    if independent { rep.count("deadline_scenarios_with_an_independent_clock"); }
+    let replay = json!({"deadline_scenario": {"independent": independent, "tighten": tighten, "advance_own": advance_own, "seconds": secs, "nested": nested}, "base": replay_base});
+    if let (Some((sig, detail)), _) = &hung {
+        rep.violation(format!("{sig}||deadline"), detail.clone(), replay.clone());
+    }
+    if !hung.1 {
+        std::mem::forget(rt);
+        rep.violation("scope-never-returned||deadline".to_string(), "after both clocks moved 100 s past every deadline the scope still has not returned".to_string(), replay);
+        rep.finish_and_exit();
+    }
+}
+
 pub fn run(args: &Args, rep: &mut Report) {
     rep.rule = "one evaluation = one execution of a generated scope program on the real scope::run! (current-thread runtime with paused \
                 clock = deterministic, and multi-thread runtimes with 2-8 workers = racy), checked offline against the event log; \
@@ -515,6 +644,10 @@ pub fn run(args: &Args, rep: &mut Report) {
     for i in 0..nprog {
         if let Some(o) = only { if o != i { continue; } } else if !rep.within_budget() { rep.count("stopped_by_budget"); break; }
         let mut rng = rng_for(args.seed, args.shard, 17, i);
+        if !small && i % 5 == 0 && only.is_none() {
+            let mut r2 = rng_for(args.seed, args.shard, 171, i);
+            deadline_scenarios(rep, &mut r2, json!({"program_index": i}));
+        }
         let allow_panic = i % 4 != 3;
         let nt = rng.gen_range(2..=max_tasks);
         let p = gen_program(&mut rng, nt, true, allow_panic);
